@@ -371,6 +371,17 @@ fn check_state(root: &str, tag: &str, base: usize, path: &[Op], page: u64, divse
 				}
 				Ok(Ok(())) => out.scans_ok += 1,
 			}
+			if *delete_unconfirmed {
+				// "when asked to drop pending transactions": no stale unconfirmed output stays behind,
+				// whatever range of the chain the scan covered
+				if let Some(o) = a.outputs().into_iter().find(|o| o.status == OutputStatus::Unconfirmed && !o.is_coinbase) {
+					out.problems.push((
+						format!("repair/{}/unconfirmed-output-left", dname),
+						format!("after {} and scan(delete_unconfirmed=true) the unconfirmed output {} (value {}) is still there", dname, o.key_id.to_bip_32_string(), o.value),
+						desc(case.clone()),
+					));
+				}
+			}
 			let mut p = vec![];
 			books_all_accounts(&w, "A", "A", &mut p);
 			for (k, v) in p {
